@@ -90,7 +90,13 @@ class HostPool(object):
                 else:
                     # If the waiter is cancelled, wait() re-acquires the
                     # lock before raising
-                    yield from self._condition.wait()
+                    try:
+                        yield from self._condition.wait()
+                    except asyncio.CancelledError:
+                        # This waiter may have consumed a notification:
+                        # pass it on so a free slot is not left unused
+                        self._condition.notify()
+                        raise
 
             self.busy.add(connection)
         finally:
